@@ -166,6 +166,8 @@ func genIdPConfig(t *rapid.T, o worldOpts) world.IdPConfig {
 	default:
 		c.IssuerPath = rapid.SampledFrom([]string{"", "/saml", "saml/v2", "/"}).Draw(t, "issuerpath")
 	}
+	// the error page the metadata names (MetadataIDPConfig.ErrorURL): published, nothing more
+	c.ErrorURL = rapid.SampledFrom([]string{"", "", "https://idp.example/ui/error", "/ui/error"}).Draw(t, "errorurl")
 	// a configuration field no code of the library reads: setting it changes nothing
 	c.IDPInsecure = rapid.IntRange(0, 3).Draw(t, "idp-insecure-field") == 0
 	if rapid.IntRange(0, 4).Draw(t, "insecure") == 0 {
